@@ -243,6 +243,9 @@ class OptRunner:
             if self._is_overflow(e, prev, grads):
                 self.out.classes.append("overflow_domain")
                 return fails
+            if self._is_lapack_failure(e):
+                self.out.classes.append("lapack_eigh_returned_nan")
+                return fails
             import traceback
 
             tb = traceback.extract_tb(e.__traceback__)
@@ -305,6 +308,27 @@ class OptRunner:
         solvers = {h["precond"].get("solver") for h in self.hp if h["precond"]["kind"] == "shampoo"}
         return isinstance(e, ValueError) and bool(solvers & set(ITERATIVE)) and (
             "exceeded the allowed tolerance" in str(e) or "Encountered nan or inf values in inverse factor matrix" in str(e))
+
+    def _is_lapack_failure(self, e: Exception) -> bool:
+        """torch.linalg.eigh occasionally returns NaN for a finite float32 matrix (LAPACK ssyevd, seen on sparse rank-one 64x64 input).
+        The optimizer then raises PreconditionerValueError as documented (C13).  That is accepted as the end of a history only when an
+        independent eigh call on a stored factor matrix, in the factor dtype, reproduces the non-finite result."""
+        if type(e).__name__ != "PreconditionerValueError" or ("inverse factor matrix" not in str(e) and "eigenvectors of factor matrix" not in str(e)):
+            return False
+        for ps in self.params:
+            for p in ps:
+                for k, bs in self.opt.state[p].items():
+                    if isinstance(k, str) and k.startswith("block_") and "shampoo" in bs:
+                        for F in bs["shampoo"].factor_matrices:
+                            F = rm.local(F)
+                            if F.numel() > 1 and bool(torch.isfinite(F).all()) and F.dtype in (torch.float32, torch.float64):
+                                try:
+                                    L, Q = torch.linalg.eigh(F)
+                                except Exception:  # noqa: BLE001
+                                    return True
+                                if not bool(torch.isfinite(L).all() and torch.isfinite(Q).all()):
+                                    return True
+        return False
 
     def _is_overflow(self, e: Exception, prev: dict, grads: list) -> bool:
         """PreconditionerValueError for inf/nan in a factor matrix is the documented response to divergence; it is outside the
